@@ -308,7 +308,7 @@ FMTS = ["Dict", "Json", "Msgpack", "Yaml"]
 
 def gen_cases(rng, tier):
     cases = []
-    n_uni = 4 if tier == "quick" else 120
+    n_uni = 6 if tier == "quick" else 120
     default_call = Con("Ser", Con("Dict"), None, None, [])
     for _ in range(n_uni):
         u0 = make_universe(rng)
